@@ -170,8 +170,14 @@ def gen_case(rng, stream="main"):
                             q = ((t * N + i) * d1 + b) * d2 + a
                             for r in range(w):
                                 vals[w * p + r] = vals[w * q + r]
+    amp = 0
+    if stream == "main" and rng.random() < 0.25:
+        # another unit of the quantity: every value × 10^amp — the normalised correlation does not depend on it, so an absolute
+        # guard / threshold hidden in a denominator shows up here
+        amp = rng.choice([-7, -5, 6, -9])
+        vals = [v if v == "0" else f"{v}e{amp}" for v in vals]
     return {"shapeLen": L, "T": T, "N": N, "d1": d1, "d2": d2, "cplx": cplx, "dt": dt, "ts": [str(t) for t in ts],
-            "vals": vals, "stream": stream, "style": style, "flavour": flavour, "csv": rng.random() < 0.05}
+            "vals": vals, "stream": stream, "style": style, "flavour": flavour, "csv": rng.random() < 0.05, "amp": amp}
 
 
 def op_line(c, mode):
@@ -279,6 +285,7 @@ def run_cases(run, cases, mode="impl", record=True):
             run.hist("shape", KIND.get(c["shapeLen"], f"len{c['shapeLen']}"))
             run.hist("dtype", "complex" if c["cplx"] else "real")
             run.hist("T", c["T"])
+            run.hist("amplitude_unit", "1e%d" % c.get("amp", 0))
             run.hist("N", c["N"])
             run.hist("d", c["d1"])
             run.hist("timesteps", c.get("style", "?"))
